@@ -93,7 +93,7 @@ def obligations(facts, families=None):
         if not rect or (families and not any(str(fn.get("pat", "")).startswith(f + "/") for f in families)):
             continue
         masks = _mask_values(var["init"])
-        if len(masks) != 1:
+        if len(masks) != 1 or "d" not in var:
             continue
         # booleans derived from the flag (single-assignment bool locals whose initialiser reads it)
         sa = single_assignment_locals(fn)
